@@ -13,3 +13,6 @@ Check Props.C15.C15_weak_handles_upgrade_while_held :
   forall s h ok s', step s (EvUpg h ok) = Acc s' ->
   exists a k x, handles s h = Some (a, k) /\ actors s a = Some x /\ is_weak k = true
     /\ ok = negb (Nat.eqb (a_tx x) 0) /\ s' = s.
+Check Props.C15.C15_any_strong_handle_suffices :
+  forall tr s h a k x, run init tr = Acc s -> handles s h = Some (a, k) -> is_weak k = false ->
+  actors s a = Some x -> upgradable x = true /\ force_alive x = true /\ closed x = false.
